@@ -3,6 +3,9 @@ package main
 import (
 	"bufio"
 	"bytes"
+	"crypto/sha1"
+	"encoding/hex"
+	"encoding/json"
 	"errors"
 	"fmt"
 	"io"
@@ -272,7 +275,32 @@ func concReplay(args []string) error {
 }
 
 // conc-history: every order of earlier sequential calls on ONE definition must leave each call's result unchanged.
+// histEvents: the (call, result) observations of conc-history as ndjson for Trace_History.tla (results as digests).
+var histEvents *json.Encoder
+
+func digest(s string) string {
+	h := sha1.Sum([]byte(s))
+	return hex.EncodeToString(h[:8])
+}
+
+// observe records that call `call` gave `fresh` on a never-used object and `used` on an object after history `after`.
+func observe2(call, after, fresh, used string) {
+	if histEvents == nil {
+		return
+	}
+	_ = histEvents.Encode(map[string]any{"ev": "fresh", "call": call, "res": digest(fresh), "after": ""})
+	_ = histEvents.Encode(map[string]any{"ev": "used", "call": call, "res": digest(used), "after": after})
+}
+
 func concHistory(args []string) error {
+	if len(args) > 0 {
+		f, err := os.Create(args[0])
+		if err != nil {
+			return err
+		}
+		defer f.Close()
+		histEvents = json.NewEncoder(f)
+	}
 	uses := [][]string{{"A", "B", "D1", "D2", "E"}, {"N1", "N2"}}
 	for _, set := range uses {
 		for _, first := range set {
@@ -291,6 +319,7 @@ func concHistory(args []string) error {
 				if got != want {
 					status = "MISMATCH"
 				}
+				observe2("definition.Lex "+second, "Lex "+first, want, got)
 				fmt.Printf("%s\tafter %s, call %s returns %q; on a fresh definition %q\n", status, first, second, got, want)
 			}
 		}
@@ -322,6 +351,7 @@ func concHistory(args []string) error {
 				status = "MISMATCH"
 			}
 		}
+		observe2("definition.Lex(reader) A", "Lex on a reader that fails half-way", want, got)
 		fmt.Printf("%s\tafter Lex on a reader that fails half-way, Lex(reader) returns %q; on a fresh definition %q\n", status, got, want)
 		p := participle.MustBuild[mappedGrammar]()
 		wantP := fmt.Sprint(p.Parse("", strings.NewReader("a b 1")))
@@ -332,6 +362,7 @@ func concHistory(args []string) error {
 				status = "MISMATCH"
 			}
 		}
+		observe2("parser.Parse(reader) a b 1", "Parse on a reader that fails half-way", wantP, got)
 		fmt.Printf("%s\tafter Parse on a reader that fails half-way, Parse returns %q; before %q\n", status, got, wantP)
 	}
 	{
@@ -359,6 +390,8 @@ func concHistory(args []string) error {
 			if second != fresh || first != fresh {
 				status = "MISMATCH"
 			}
+			observe2("parser(Elide unknown).ParseString", "the same call, which panicked", fresh, second)
+			observe2("parser(Elide unknown).ParseString", "", fresh, first)
 			fmt.Printf("%s\ta parser with an Elide option naming an unknown token: first call %q, second call %q, first call on a fresh parser %q\n", status, first, second, fresh)
 		}
 	}
@@ -375,6 +408,7 @@ func concHistory(args []string) error {
 		if got != fresh {
 			status = "MISMATCH"
 		}
+		observe2("parser.String()", "six failing parses", fresh, got)
 		fmt.Printf("%s\tParser.String() after failing parses is %q; on a fresh parser %q\n", status, got, fresh)
 	}
 	// results handed out earlier must not change when the parser is used again (no aliasing of reused storage)
@@ -397,6 +431,7 @@ func concHistory(args []string) error {
 		if before != after {
 			status = "MISMATCH"
 		}
+		observe2("read the token lists of a returned AST", "100 further parses on the same parser", before, after)
 		fmt.Printf("%s\ttoken lists of an AST returned earlier, after 100 further parses on the same parser: %.80s vs %.80s\n", status, after, before)
 	}
 	return nil
